@@ -174,6 +174,17 @@ class V3(object):
         ctx.data["frozen_maps"] = []
         o.assumed_state = True
         o.assumed_fields = set(o.fields)
+        o.v3view = self
+        o.written = set()
+        # fields the representation invariant does not mention are derived from the code
+        from pyvc import extra
+
+        extra.attach(ctx, o, "v3view", self, known=set(o.fields),
+                     stop_after={"parsed": "check_mandatory", "scoped": "handle_scope",
+                                 "filled": "add_missing_optional", "done": None}[phase],
+                     parsed_fields=lambda: {"metrics": SMap(self.o.dom, self.o.val, None, "metrics"),
+                                            "minor_version": self.minor},
+                     accessors=ACCESSORS3, closure=(phase == "done"))
         return o
 
     def mscope_str(self):
@@ -204,6 +215,17 @@ class V3(object):
         if n == "modified_esc":
             return lift(frac_to_di(SCALE["modified_esc"], "?"), self.spec("mexpl"))
         raise KeyError(n)
+
+
+_TF = (True, False)
+ACCESSORS3 = (
+    ("scores", [((), {})]), ("severities", [((), {})]),
+    ("clean_vector", [((), {"output_prefix": b}) for b in _TF]),
+    ("rh_vector", [((), {})]), ("temporal_vector", [((), {})]), ("environmental_vector", [((), {})]),
+    ("as_json", [((), {"sort": a, "minimal": b}) for a in _TF for b in _TF]),
+    ("__hash__", [((), {})]), ("__eq__", []),
+    ("get_value_description", []),
+)
 
 
 def score_repr(ctx, spec, tag):
